@@ -90,9 +90,10 @@ pub fn install_epmd_net(world: &Arc<World>, creation: u32, peer_alive: &str, pee
                         }
                         let name = &body[1..];
                         let mut resp = vec![119u8];
-                        if name == peer_alive.as_bytes() {
+                        // "other" is a second node some runs connect to as well (nodeenv::OTHER_NAME)
+                        if name == peer_alive.as_bytes() || (name == b"other" && peer_alive == "peer") {
                             resp.push(0);
-                            resp.extend_from_slice(&peer_port.to_be_bytes());
+                            resp.extend_from_slice(&(if name == peer_alive.as_bytes() { peer_port } else { 5556 }).to_be_bytes());
                             resp.push(77);
                             resp.push(0);
                             resp.extend_from_slice(&6u16.to_be_bytes());
